@@ -32,3 +32,12 @@ Theorem C03_mean_constant_trunc :
   last_out (step qquot N false) init (repeat (inject_Z c) k) (inject_Z c) == inject_Z c.
 Proof. exact mean_constant_trunc. Qed.
 Print Assumptions C03_mean_constant_trunc.
+
+(* ---- bridge: the boolean spec evaluated by the correspondence check is satisfied by the model on every input ---- *)
+From Signalo Require Spec.C03 Spec.C04 Spec.C10 Check.Common Check.C15 Proofs.Bridge.
+(* C03: the moving-average model passes mean_spec_okb, for field and truncating division *)
+Theorem C03_model_passes_boolean_spec : forall N xs, (0 < N)%nat ->
+  Signalo.Spec.C03.mean_spec_okb rdiv N xs (run (Mean.step rdiv N false) Mean.init xs) = true /\
+  Signalo.Spec.C03.mean_spec_okb Mean.qquot N xs (run (Mean.step Mean.qquot N false) Mean.init xs) = true.
+Proof. exact Signalo.Proofs.Bridge.bridge_c03. Qed.
+Print Assumptions C03_model_passes_boolean_spec.
